@@ -100,6 +100,8 @@ enum Tok {
     LocalDisc,
     RaceDisc(u64),
     RaceSend(u64, u64),
+    RaceBurst(u64, u64, u64),
+    RaceJoin,
 }
 
 fn cmd12(s: &str) -> Option<[u8; 12]> {
@@ -130,6 +132,8 @@ fn parse_tok(t: &str) -> Option<Tok> {
         ("ld", 1) => Tok::LocalDisc,
         ("rld", 2) => Tok::RaceDisc(p[1].parse().ok()?),
         ("rls", 3) => Tok::RaceSend(p[1].parse().ok()?, p[2].parse().ok()?),
+        ("rjoin", 1) => Tok::RaceJoin,
+        ("rlb", 4) => Tok::RaceBurst(p[1].parse().ok()?, p[2].parse().ok()?, p[3].parse().ok()?),
         _ => return None,
     })
 }
@@ -216,9 +220,17 @@ fn node_reader(mut sock: TcpStream, rx: Arc<Mutex<Vec<(String, Vec<u8>)>>>, eof:
         let mut h = [0u8; 24];
         if sock.read_exact(&mut h).is_err() { break; }
         let len = u32::from_le_bytes([h[16], h[17], h[18], h[19]]) as usize;
-        if len > 4_000_000 { break; }
-        let mut p = vec![0u8; len];
-        if sock.read_exact(&mut p).is_err() { break; }
+        // what the peer puts on the wire must be a sequence of well-formed frames (right magic, checksum of the payload): two local
+        // sends whose bytes interleave, or a frame cut short, show up here; the rest of the stream is drained unparsed
+        let mut corrupt = h[..4] != MAGIC || len > 4_000_000;
+        let mut p = vec![0u8; if corrupt { 0 } else { len }];
+        if !corrupt { if sock.read_exact(&mut p).is_err() { break; } corrupt = sha256d(&p).0[..4] != h[20..24]; }
+        if corrupt {
+            rx.lock().unwrap().push(("!corrupt".to_string(), vec![]));
+            let mut sink = [0u8; 65536];
+            loop { match sock.read(&mut sink) { Ok(0) | Err(_) => break, Ok(_) => {} } }
+            break;
+        }
         let name: String = h[4..16].iter().take_while(|b| **b != 0).map(|b| *b as char).collect();
         rx.lock().unwrap().push((name, p));
     }
@@ -416,6 +428,21 @@ fn run_session(minh: i32, seg: &Seg, toks: &[Tok]) -> Result<Session, String> {
                 let (p, us) = (peer.clone(), *us);
                 race_threads.push(thread::spawn(move || { thread::sleep(Duration::from_micros(us)); p.disconnect(); }));
             }
+            // `rlb:<n>:<entries>:<tag>`: a thread sending n inventory messages of <entries> entries each as fast as it can (a message
+            // is many write calls: several such threads at once must still put whole frames on the wire, one after the other)
+            Tok::RaceBurst(n, entries, tag) => {
+                flush(&mut sock, &mut buf, seg, &mut fault_end, &eof);
+                let (p, n, entries, tag, out) = (peer.clone(), *n, *entries, *tag, race_sends.clone());
+                race_threads.push(thread::spawn(move || {
+                    let mut rs = Vec::new();
+                    for i in 0..n {
+                        let m = Message::Inv(Inv { objects: (0..entries).map(|j| InvVect { obj_type: 1, hash: Hash256([(tag as u8) ^ (i as u8) ^ (j as u8); 32]) }).collect() });
+                        rs.push(send_class(&p.send(&m)));
+                    }
+                    out.lock().unwrap().extend(rs);
+                }));
+            }
+            Tok::RaceJoin => { flush(&mut sock, &mut buf, seg, &mut fault_end, &eof); for t in race_threads.drain(..) { let _ = t.join(); } }
             Tok::RaceSend(n, us) => {
                 flush(&mut sock, &mut buf, seg, &mut fault_end, &eof);
                 let (p, n, us, out) = (peer.clone(), *n, *us, race_sends.clone());
@@ -494,11 +521,12 @@ fn summarise_race(s: &Session) -> String {
     let io = s.race_sends.iter().skip(oks).take_while(|r| *r == "err:IoError").count().min(1);
     let mono = s.race_sends.iter().skip(oks + io).all(|r| r == "err:IllegalState");
     let sends = if mono { "mono".to_string() } else { s.race_sends.join(",") };
-    let seen = rxr.iter().skip(3).filter(|r| r.starts_with("ping/")).count();
+    let seen = rxr.iter().skip(3).filter(|r| r.starts_with("ping/") || r.starts_with("inv/")).count();
+    let wire = if s.rx.iter().any(|(n, _)| n == "!corrupt") { "corrupt" } else { "ok" };
     let lsrx = if seen <= oks { "le".to_string() } else { format!("{}>{}", seen, oks) };
-    format!("ok:race|c={}|cfirst={}|order={}|pong={}|x={}|sends={}|lsrx={}|after={}|conn={}|late={},{},{}|panics={}",
+    format!("ok:race|c={}|cfirst={}|order={}|pong={}|x={}|sends={}|lsrx={}|wire={}|after={}|conn={}|late={},{},{}|panics={}",
         s.log.iter().filter(|l| *l == "C").count(), cfirst as u8, order, pong, s.log.iter().filter(|l| *l == "D").count(),
-        sends, lsrx, s.after, s.conn as u8, s.late.0, s.late.1, s.late.2, s.panics)
+        sends, lsrx, wire, s.after, s.conn as u8, s.late.0, s.late.1, s.late.2, s.panics)
 }
 
 #[path = "c12conc.rs"]
@@ -773,5 +801,16 @@ pub fn gen(tier: &str, rng: &mut Rng, out: &mut Vec<String>) {
         }
         t.push("close".into());
         out.push(format!("c12.race 0 {}:0:s {}", rng.pick(&[0usize, 0, 13]), t.join(",")));
+    }
+    // ---- (G) several local threads sending at once: whole frames on the wire ----
+    for i in 0..6 * mult {
+        let mut t = hs(rng);
+        t.push("sync".into());
+        let nthreads = 2 + i % 3;
+        for k in 0..nthreads { t.push(format!("rlb:{}:{}:{}", rng.range(20, 60), *rng.pick(&[1u64, 40, 400, 1500]), k + 1)); }
+        if i % 2 == 0 { t.push(format!("rls:{}:0", rng.range(5, 12))); }
+        t.push("rjoin".into());
+        t.push("close".into());
+        out.push(format!("c12.race 0 0:0:s {}", t.join(",")));
     }
 }
